@@ -141,6 +141,14 @@ PROPS = {
              'cases': {'quick': 160, 'thorough': 6000}, 'shards': {'quick': 2, 'thorough': 4}, 'timeout': {'quick': 900, 'thorough': 7200}},
         ],
     },
+    'C18': {
+        'rule': 'valid elements with coordinates 1e-8..1e9, eps log-uniform 1e-12..1e-1 or the default, pairs Y = X (+) d with |d|_inf = eps*10^s, s in [-4,-1] u [1,4] (only where the rounding noise u*|coordinates| is <= 1e-2 of eps and of the distance), q/-q pairs, tangents (identical, zero vs tiny, scaled); non-trivial: coordinates >= 1e3, q/-q pair, or |s| = 1',
+        'assumptions': ['"well below / well above" = at least one decade away from eps in every component; the distance clauses are evaluated only where the decision is meaningful (noise floor), reflexivity and the q/-q clause for every generated element'],
+        'stages': [
+            {'src': 'C18.cpp', 'configs': D_GROUPS + ['SE2f', 'SE3f', 'SGal3f'] + BUNDLES,
+             'cases': {'quick': 8000, 'thorough': 400000}, 'shards': {'quick': 1, 'thorough': 2}},
+        ],
+    },
     'C11': {
         'rule': 'bundle layouts covering every group first/middle/last, repeated and single, differing DoF/RepSize/Dim/matrix sizes; per-element inputs of 1.3; non-trivial: >= 2 elements with different DoF and input non-identity in every element',
         'assumptions': ['offsets are recomputed by the harness as prefix sums of the documented per-group sizes (engine/vf_ref.cpp Spec), not read from manif traits',
